@@ -886,7 +886,9 @@ class SetIndex(BaseSetIndexSortValues):
             if self.frame.npartitions > 1:
                 expr = RepartitionToFewer(expr, 1)
 
-            index_set = SetIndexBlockwise(expr, self._other, self.drop, None)
+            index_set = SetIndexBlockwise(
+                expr, self._other, self.drop, self.user_divisions
+            )
             return SortIndexBlockwise(index_set)
 
         if self.user_divisions is None:
